@@ -87,6 +87,9 @@ theorem accepted_writes_reproduce_source (c : Bytes) (chunks : List Bytes) :
     applies accepted writes in arrival order (`wire`).  For every write-fault plan, every plan for other requests,
     every request-size limit > 0, any number of other open files: if every call up to and including `close()`
     returned normally, the server's file holds exactly the concatenation of the chunks.
+    The `file_size` argument of putfo does not occur in the model: in the code it is handed to the callback only, the
+    loop ends when the source's read() returns nothing — so the theorem holds for every value of it (0, exact, too
+    small, too large).
     (`put` is `putfo` over the local file; the optional `confirm` stat afterwards sends no write and can only raise.) -/
 theorem putfo_normal_return_implies_destination_equals_source (maxReq nfiles : Nat) (hm : 0 < maxReq)
     (wfaults sfaults : List Nat) (f : Nat) (hf : f < nfiles) (body : List Op) (hbody : ∀ op ∈ body, PutOp f op)
@@ -162,20 +165,21 @@ theorem putfo_normal_return_implies_destination_equals_source (maxReq nfiles : N
 
 /-- **getfo returned normally ⇒ local bytes = remote bytes**, for every plan of per-request server behaviour (each
     READ either fails with an error status or returns 1..n true bytes, EOF exactly at the end of the file), every
-    request-size limit and chunk size > 0, every outcome of the initial stat and open: short reads are re-requested
-    by `BufferedFile.read`, the loop ends only at a true end of file. -/
+    request-size limit and chunk size > 0, every outcome of the initial stat and open, and **whatever size the
+    server's STAT answer reports** (`reported`: smaller, exact or larger than the real content — it is only a
+    progress hint): short reads are re-requested by `BufferedFile.read`, the loop ends only at a true end of file. -/
 theorem getfo_normal_return_implies_local_equals_remote (remote : Bytes) (maxReq chunk statCode openCode : Nat)
-    (plan : List SftpGet.RdOut) (fuel : Nat) (b : Bytes) (hm : 0 < maxReq) (hc : 0 < chunk)
-    (h : SftpGet.getfo remote maxReq chunk statCode openCode plan fuel = .ok b) : b = remote :=
+    (plan : List SftpGet.RdOut) (fuel reported : Nat) (b : Bytes) (hm : 0 < maxReq) (hc : 0 < chunk)
+    (h : SftpGet.getfo remote maxReq chunk statCode openCode plan fuel reported = .ok b) : b = remote :=
   SftpGet.getfo_ok_exact hm hc h
 
 /-- the same for `get` (which additionally compares the local file's size with the byte count, raising
     IOError("size mismatch in get!") on a difference) -/
 theorem get_normal_return_implies_local_equals_remote (remote : Bytes) (maxReq chunk statCode openCode : Nat)
-    (plan : List SftpGet.RdOut) (fuel : Nat) (b : Bytes) (hm : 0 < maxReq) (hc : 0 < chunk)
-    (h : SftpGet.get remote maxReq chunk statCode openCode plan fuel = .ok b) : b = remote := by
+    (plan : List SftpGet.RdOut) (fuel reported : Nat) (b : Bytes) (hm : 0 < maxReq) (hc : 0 < chunk)
+    (h : SftpGet.get remote maxReq chunk statCode openCode plan fuel reported = .ok b) : b = remote := by
   unfold SftpGet.get at h
-  cases hg : SftpGet.getfo remote maxReq chunk statCode openCode plan fuel with
+  cases hg : SftpGet.getfo remote maxReq chunk statCode openCode plan fuel reported with
   | ok b' =>
     simp only [hg] at h
     split at h
@@ -193,8 +197,8 @@ theorem failed_read_raises (remote : Bytes) (maxReq chunk fuel c : Nat) (loc : B
 
 /-- a failing stat or open raises before anything is transferred -/
 theorem failed_stat_or_open_raises (remote : Bytes) (maxReq chunk statCode openCode : Nat) (plan : List SftpGet.RdOut)
-    (fuel : Nat) (h : statCode ≠ 0 ∨ openCode ≠ 0) :
-    ∃ c, SftpGet.getfo remote maxReq chunk statCode openCode plan fuel = .raised c := by
+    (fuel reported : Nat) (h : statCode ≠ 0 ∨ openCode ≠ 0) :
+    ∃ c, SftpGet.getfo remote maxReq chunk statCode openCode plan fuel reported = .raised c := by
   unfold SftpGet.getfo
   by_cases hs : statCode ≠ 0
   · exact ⟨statCode, by simp [hs]⟩
